@@ -2,7 +2,7 @@
 GENERATED import list — regenerate with `python3 tools/gen_all_imports.py` (from /verif); do not edit the
 imports by hand. `python3 tools/gen_all_imports.py --check` fails if a module on disk is not imported here.
 
-Imports every module of the libraries QmcModel, QmcProofs, QmcProps (191 modules), so that
+Imports every module of the libraries QmcModel, QmcProofs, QmcProps (200 modules), so that
 `lake build QmcAll` certifies that the whole development type-checks in ONE environment: no two modules
 declare the same name (Lean: "environment already contains …"). See design_notes/Cleanup.md.
 
@@ -41,6 +41,7 @@ import QmcModel.Proto
 import QmcModel.Rand
 import QmcModel.Rvb
 import QmcModel.RvbRegion
+import QmcModel.RvbRegionOK
 import QmcModel.Sampler
 import QmcModel.SamplerCore
 import QmcModel.SamplerLoop
@@ -82,12 +83,14 @@ import QmcProofs.FastOpsGlobal
 import QmcProofs.FastOpsGlobalCanon
 import QmcProofs.FastOpsGlobalStep
 import QmcProofs.FastOpsHint
+import QmcProofs.FastOpsHintIter
 import QmcProofs.FastOpsInstallList
 import QmcProofs.FastOpsInv
 import QmcProofs.FastOpsNth
 import QmcProofs.FastOpsOps
 import QmcProofs.FastOpsSubFill
 import QmcProofs.FastOpsSubFull
+import QmcProofs.FastOpsSubOps
 import QmcProofs.FastOpsSubSweep
 import QmcProofs.FastOpsVar
 import QmcProofs.FastOpsVarAssembly
@@ -160,10 +163,14 @@ import QmcProofs.RefinementSweep
 import QmcProofs.Rvb
 import QmcProofs.RvbBalance
 import QmcProofs.RvbExtractFlip
+import QmcProofs.RvbHam
 import QmcProofs.RvbKernel
 import QmcProofs.RvbMove
 import QmcProofs.RvbRegion
+import QmcProofs.RvbRegionOK
+import QmcProofs.RvbReverse
 import QmcProofs.RvbSweep
+import QmcProofs.RvbWeight
 import QmcProofs.SSE
 import QmcProofs.SSEConfig
 import QmcProofs.SamplerBridge
@@ -181,6 +188,7 @@ import QmcProps.C01
 import QmcProps.C01Capstone
 import QmcProps.C02
 import QmcProps.C03
+import QmcProps.C03Kernel
 import QmcProps.C04
 import QmcProps.C04Capstone
 import QmcProps.C04Mass
@@ -191,6 +199,7 @@ import QmcProps.C08
 import QmcProps.C09
 import QmcProps.C10
 import QmcProps.C11
+import QmcProps.C11Hint
 import QmcProps.C12
 import QmcProps.C13
 import QmcProps.C14
